@@ -1,11 +1,11 @@
 package main
 
 import (
+	"fmt"
+	"go/types"
 	"math/big"
 	"os"
 	"runtime/debug"
-	"fmt"
-	"go/types"
 	"sort"
 	"strings"
 )
@@ -76,16 +76,16 @@ func oos(format string, a ...interface{}) {
 // ---------------------------------------------------------------------------------------------
 
 type Universe struct {
-	decls    []string
-	declared map[string]bool
-	sorts    map[string]*Sort // by SMT name
-	byType   map[string]*Sort // by Go type string
-	fresh    int
-	errCodes map[string]int
-	strLits  map[string]string
-	axioms   []string // global axioms (assumed in every obligation), with provenance
-	axiomSrc []string
-	wfDone   map[string]bool
+	decls      []string
+	declared   map[string]bool
+	sorts      map[string]*Sort // by SMT name
+	byType     map[string]*Sort // by Go type string
+	fresh      int
+	errCodes   map[string]int
+	strLits    map[string]string
+	axioms     []string // global axioms (assumed in every obligation), with provenance
+	axiomSrc   []string
+	wfDone     map[string]bool
 	inProgress map[string]bool
 }
 
